@@ -371,7 +371,9 @@ def counts(rep):
     inc = [n for n in lp.body if cname and (pmatch(f"{cname} += 1", n) is not None or pmatch(f"{cname} = {cname} + 1", n) is not None)]
     others = [n for n in walk_local(sm.node) if cname and isinstance(n, (ast.Assign, ast.AugAssign)) and n not in inc and
               any(norm(t) == cname for t in (n.targets if isinstance(n, ast.Assign) else [n.target])) and not (isinstance(n, ast.Assign) and is_const(n.value, 0))]
-    rep.ob("O18.5", "SHAPE", sm, len(inc) == 1 and not others, inc[0] if inc else "count += 1", "every enumerated automorphism is counted (unconditionally)", node=lp)
+    # the reported count is not a plain local (e.g. a field of a bookkeeping object): the rule cannot follow it -> not decided
+    rep.ob("O18.5", "SHAPE", sm, None if (cnt is not None and cname is None) else (len(inc) == 1 and not others), inc[0] if inc else "count += 1",
+           "every enumerated automorphism is counted (unconditionally)", node=lp)
     oc = [c for c in walk_local(sm.node) if isinstance(c, ast.Call) and call_name(c) == "_compute_orbits_from_mappings"]
     used = norm(oc[0].args[1]) if oc and len(oc[0].args) > 1 else None
     app = [c for c in walk_local(lp) if used and isinstance(c, ast.Call) and norm(c.func) == f"{used}.append"]
@@ -396,7 +398,9 @@ def counts(rep):
             sibs = next((getattr(owner, f_) for f_ in ("body", "orelse", "finalbody") if isinstance(getattr(owner, f_, None), list) and any(x is n for x in getattr(owner, f_))), [])
             return under and any(isinstance(x, ast.Break) for x in sibs)
         okst = any(_cut(n) for n in raises)
-    rep.ob("O18.5", "SHAPE", sm, cname is not None and bool(okorb) and okst, {k: norm(v) for k, v in kv.items() if k in ("automorphism_count", "orbits", "stopped_early")},
+    # count / stop flag kept in fields of a bookkeeping object: the rule cannot follow them -> not decided
+    opaque = (cnt is not None and cname is None) or (st is not None and not isinstance(st, ast.Name))
+    rep.ob("O18.5", "SHAPE", sm, None if opaque else (cname is not None and bool(okorb) and okst), {k: norm(v) for k, v in kv.items() if k in ("automorphism_count", "orbits", "stopped_early")},
            "the summary reports the count, the orbits and whether enumeration was cut")
     co = rep.f(AU, "CRNAutomorphism._compute_orbits_from_mappings")
     nodes_p, maps_p = co.params[1], co.params[2]
@@ -413,9 +417,12 @@ def counts(rep):
             ok = it is not None and (pmatch("($s, $d)", l2[0].target, m) is not None or pmatch("($d, $s)", l2[0].target, m) is not None) \
                 and norm(o_tg) == it["m"] and norm(o_it) == maps_p \
                 and not [x for x in walk_local(l2[1]) if isinstance(x, (ast.Break, ast.Continue, ast.Return))]
-    rep.ob("O18.5", "SHAPE", co, ok, un[0] if un else "union(src, dst)", "each node is merged with its image under every mapping (orbits = exchangeability classes)")
+    # no plain union(..) call (the union-find lives in a helper object): not decided; a union that does not join node and image: violated
+    rep.ob("O18.5", "SHAPE", co, None if not un else ok, un[0] if un else "union(src, dst)", "each node is merged with its image under every mapping (orbits = exchangeability classes)")
     bk = [n for n in walk_local(co.node) if isinstance(n, ast.For) and norm(n.iter) == nodes_p]
-    rep.ob("O18.5", "SHAPE", co, bool(bk), bk[0].iter if bk else "for n in nodes", "every node of the view is assigned to an orbit")
+    # grouping loop over all nodes; when grouping is delegated (helper object called with the node list) the rule cannot follow it -> not decided
+    delegated = any(isinstance(c_, ast.Call) and any(norm(a_) == nodes_p for a_ in c_.args) for c_ in walk_local(co.node))
+    rep.ob("O18.5", "SHAPE", co, True if bk else (None if delegated else False), bk[0].iter if bk else "for n in nodes", "every node of the view is assigned to an orbit")
 
 
 MUTANTS = [
